@@ -499,7 +499,7 @@ def _run_check(check, tier, seed, replay=None):
             **({'theorem_coverage': dict(__import__('harness.session', fromlist=['x']).COVER_COUNTS,
                                          note='per evaluation request of the correspondence run, asked of the model before the evaluation: does the restricted '
                                               'evaluator of the global theorem complete on it (Bal.walEvalR for C17.toplevel_balanced, Opt.walEvalF for '
-                                              'C08.optimize_preserves_restricted, Res.walEvalC for C07.resolved_run_eq_dynamic_run, Tid.walEvalT for C03.reval_position_neutral and C04.whenever_position_neutral / findG_position_neutral)? If so the theorem speaks about exactly this evaluation of the model, '
+                                              'C08.optimize_preserves_restricted, Res.walEvalC for C07.resolved_run_eq_dynamic_run, Tid.walEvalT for C03.reval_position_neutral and C04.whenever_position_neutral / findG_position_neutral, Neu.walEvalN for C04.completed_evaluation_position_neutral)? If so the theorem speaks about exactly this evaluation of the model, '
                                               'and the correspondence compares the model with the implementation on it.')}
                if getattr(check, 'theorem_coverage', False) else {}),
         },
